@@ -17,7 +17,7 @@ ap.add_argument('--wd', default='/tmp/try'); ap.add_argument('--native', action=
 ap.add_argument("--vec", default=None); ap.add_argument("--extern-c", dest="extern_c", action="append", default=[]); ap.add_argument('--cdef', action='append', default=[])
 a = ap.parse_args()
 u = pl.Unit(a.src, a.config, defines=a.D, stubs=None if a.stubs is None else [s for s in a.stubs.split(',') if s], noinline=a.noinline,
-            threads=a.threads, max_node_type=a.max_node_type, nondet_init=a.nondet_init, extra_glue=a.glue, cdefs=a.cdef, extern_c=a.extern_c, entry_hooks=[x.split('@@', 1) for x in a.entry_hook])
+            threads=a.threads, max_node_type=a.max_node_type, nondet_init=a.nondet_init, extra_glue=a.glue, cdefs=a.cdef, extern_c=a.extern_c)
 t0 = time.time()
 c = u.build(a.wd)
 print('built', c, u.info, 'in %.1fs' % (time.time() - t0))
